@@ -4,7 +4,7 @@ import PegVerif.Proofs.RefineCases
 -/
 namespace PegVerif
 
-variable {P : Program} {cfg : Cfg} {env : CEnv} {G : Grammar} {inp : List Sym}
+variable [MInv] {P : Program} {cfg : Cfg} {env : CEnv} {G : Grammar} {inp : List Sym}
 
 /-- The choice wrapper: `{ positionN, tokenIndexN := … ; <alternatives> } lN:` -/
 theorem good_alt_of_goodAlt {es p res evs} (h : GoodAlt P cfg env inp es p res evs) :
